@@ -330,6 +330,33 @@ func c18(r *Report) {
 				after := g.PathTo([]ssa.Instruction{st}, false, isStamp, isUnlock) == nil
 				have["time stamp"] = before || after
 			}
+			// ... and the stamp is the time of the swap: the clock is read inside the locked region (a
+			// time taken when the request arrived predates connections accepted while its body was
+			// being read, which then pass for "accepted under the new table")
+			{
+				isLock := func(i ssa.Instruction) bool { _, y := isCall(i, "(*sync.RWMutex).Lock"); return y }
+				nStamp, okClock := 0, true
+				var at token.Pos = sh.Pos()
+				for _, in := range instrs(sh) {
+					s2, isSt := in.(*ssa.Store)
+					if !isSt {
+						continue
+					}
+					f2, isFa := s2.Addr.(*ssa.FieldAddr)
+					if !isFa || fieldObj(f2).Name() != "LastModifiedTime" {
+						continue
+					}
+					nStamp++
+					for _, l := range resolveAll(s2.Val) {
+						c, isC := l.(*ssa.Call)
+						if !isC || calleeName(c) != "time.Now" || g.PathTo([]ssa.Instruction{g.Entry()}, true, isLock, func(i ssa.Instruction) bool { return i == ssa.Instruction(c) }) != nil {
+							okClock = false
+							at = s2.Pos()
+						}
+					}
+				}
+				r.Decide("path", "(*M/trafficshape.Handler).ServeHTTP: the time stamp is read from the clock inside the locked region", nStamp >= 1 && okClock, "every value stored to LastModifiedTime is a time.Now() called after Shapes.Lock()", "the table is stamped with a time taken before the lock (on arrival of the request, at parse time): a connection accepted between that moment and the swap compares as newer than the table and is shaped by a configuration installed after it was accepted", at)
+			}
 			for _, part := range []string{"read bandwidth", "write bandwidth", "latency", "defaults", "shape table emptied", "shapes installed", "time stamp"} {
 				r.Decide("table", "(*M/trafficshape.Handler).ServeHTTP: an accepted configuration applies its "+part, have[part], "the update is made from the received value", "an accepted configuration does not apply its "+part+": the previous value stays in force (the old shapes keep matching, the old bandwidth or latency keeps shaping) although the client was told 200", sh.Pos())
 			}
@@ -1492,6 +1519,45 @@ func c18(r *Report) {
 			}
 		}
 		r.Decide("table", "M/trafficshape.Conn.GetNextActionFromByte: the look-up starts at the index the search found", okInd, "nextActionFromIndex(actions, ind) with ind the search result", "the index handed on is not the search result (it is adjusted on some path): of several actions at one offset only some run", fn.Pos())
+		// after an action was performed the next one is the next in the list - the one at index+1 -
+		// and not the first at a later byte: several actions may sit at one offset (a halt and a
+		// close at the same byte), and a search from offset+1 skips the rest of them
+		if wr := w.Fn("trafficshape", "Conn.Write"); wr != nil && wr.Blocks != nil {
+			r.Touch(wr)
+			nNext, okNext := 0, true
+			var at token.Pos = wr.Pos()
+			for _, in := range instrs(wr) {
+				st, isSt := in.(*ssa.Store)
+				if !isSt {
+					continue
+				}
+				fa, isFa := st.Addr.(*ssa.FieldAddr)
+				if !isFa || fieldObj(fa).Name() != "NextActionInfo" || namedOf(fa.X.Type()) != "Context" {
+					continue
+				}
+				nNext++
+				good := false
+				if c, isC := st.Val.(*ssa.Call); isC && calleeName(c) == "(*M/trafficshape.Conn).GetNextActionFromIndex" && len(c.Call.Args) == 2 {
+					if b, isB := c.Call.Args[1].(*ssa.BinOp); isB && b.Op == token.ADD {
+						for _, pr := range [][2]ssa.Value{{b.X, b.Y}, {b.Y, b.X}} {
+							k, isK := constInt(pr[1])
+							fromIdx := anyIn(w.backSlice(pr[0], flowOpt{}), func(v ssa.Value) bool {
+								f2, y := v.(*ssa.FieldAddr)
+								return y && fieldObj(f2).Name() == "Index" && namedOf(f2.X.Type()) == "NextActionInfo"
+							})
+							if isK && k == 1 && fromIdx {
+								good = true
+							}
+						}
+					}
+				}
+				if !good {
+					okNext = false
+					at = st.Pos()
+				}
+			}
+			r.Decide("flow", "(*M/trafficshape.Conn).Write: after an action the next action is the one at the following index", nNext >= 1 && okNext, "NextActionInfo = GetNextActionFromIndex(NextActionInfo.Index + 1)", "the action that follows is searched by byte offset (or from another index): a second action at the same offset as the one just performed - a close right after a halt - is skipped and never happens", at)
+		}
 	})
 
 	r.Guard("C18.R1", "a connection looks its shape up only after checking that the shape table is the one it was accepted under", func() {
